@@ -60,3 +60,10 @@ VARIANTS += [
     V("zero-length-A-shape-always-square", BI, "                if len(self._size) < 2:\n", "                if len(self._size) < 0:\n", rule="R03.6"),
     V("twin-zero-length-A-shape-ndim", BI, "                if len(self._size) < 2:\n", "                if len(self._size) in (0, 1):\n", expect="silent"),
 ]
+
+VARIANTS += [
+    # round-6 seed: the zero-length shortcut decided by the length of the query instead of by its resolved end points
+    V("zero-shortcut-by-length", BI, "        if self._round(ta) == self._round(tb):", "        if tb - ta <= self._tol:", rule="R03.2"),
+    V("zero-shortcut-by-half-cell", BI, "        if self._round(ta) == self._round(tb):", "        if self._round(ta) == self._round(tb) or tb - ta < 0.5 * self._tol:", rule="R03.2"),
+    V("twin-zero-shortcut-temporaries", BI, "        if self._round(ta) == self._round(tb):", "        ra = self._round(ta)\n        rb = self._round(tb)\n        if rb == ra:", expect="silent"),
+]
